@@ -61,6 +61,8 @@ for c in [
     mkcfg("small-omp-tsan", openmp=1, mzdcache=0, san=TSAN),
     mkcfg("small-ts-tsan", mmc=0, mzdcache=0, san=TSAN),
     mkcfg("small-mmc-tsan", mmc=1, mzdcache=1, san=TSAN),
+    mkcfg("small-cov", san=[], extra=["-fprofile-instr-generate", "-fcoverage-mapping"]),
+    mkcfg("small-nosse-cov", sse2=0, san=[], extra=["-fprofile-instr-generate", "-fcoverage-mapping"]),
     mkcfg("small-fuzz", san=["-fsanitize=fuzzer-no-link,address,undefined", "-fno-sanitize-recover=all",
                              "-fno-omit-frame-pointer"]),
 ]:
@@ -192,7 +194,7 @@ def link(cfgname, objs, hobjs, outname=None, extra_libs=()):
     out = os.path.join(BIN, "%s-%s-%s" % (outname or "vf", cfgname, h))
     if os.path.exists(out):
         return out
-    cmd = [CXX, "-o", out + ".tmp%d" % os.getpid()] + hobjs + objs + cfg["san"]
+    cmd = [CXX, "-o", out + ".tmp%d" % os.getpid()] + hobjs + objs + cfg["san"] + [x for x in cfg["extra"] if x.startswith("-fprofile") or x.startswith("-fcoverage")]
     cmd = [c for c in cmd if not c.startswith("-fsanitize-recover") and not c.startswith("-fno-sanitize-recover")]
     cmd = [c.replace("fuzzer-no-link", "fuzzer") for c in cmd]
     if cfg["openmp"]:
